@@ -68,6 +68,9 @@ def _run_all(files, budget, baseline, rows):
       # is the one expected to see it
       props = meta.get('checked_by', props)
       name = 'seeded/' + os.path.basename(os.path.dirname(f))
+      if meta.get('not_caught'):
+        rows.append((name, '/'.join(props), 'KNOWN-MISS', meta['not_caught'][:120]))
+        continue
       if meta.get('out_of_scope') or meta.get('obsolete'):
         rows.append((name, '/'.join(props), 'NOT-RUN',
                      (meta.get('out_of_scope') or meta.get('obsolete'))[:120]))
